@@ -10,7 +10,7 @@ from verif.contracts.common import (smt_custom, law, Obligation, Result, Sym, sy
 from verif.engine.alg import SymAlg
 
 LEVEL = 'other'
-EXPECTED_MIN = {'quick': 10, 'thorough': 12}
+EXPECTED_MIN = {'quick': 9, 'thorough': 11}
 EXPLANATION = ('PROVED: log_prob = sum_i [normal log-density - log-det-Jacobian of tanh] with the scale (softplus(raw)+min_std)*var_scale (z3, softplus/log '
                'uninterpreted and shared with the spec); the numerically stable Jacobian 2(log2 - x - softplus(-2x)) equals log(1 - tanh^2 x) and jax.nn.softplus equals '
                'log(1+e^x) (sympy, case split on sign); scale floor; sample = tanh(mu + sigma*eps(key)) with eps independent of the parameters, mode = tanh(mu) => range '
